@@ -4,15 +4,20 @@
    the inside_sum variants; [render_str] models str(ConvertError).  RRaises = the
    renderer raised; RUnmodelled = the text contains str() of a float / a traceback,
    which the model does not spell out (such trees are compared on pane only).
-   Determinism is the fact that [render] is a function. *)
+   Determinism: [render] is a function of the tree, and the two SETS of a product node
+   (missing / unexpected field names) are printed sorted ([canon_tree], Model/RenderSort.v),
+   so that the text is the same however those sets are enumerated (the order of a Python set of
+   strings changes with the interpreter's hash seed): C08_message_independent_of_set_order.
+   [render_message] = str(ConvertError) = render_str after canon_tree. *)
 From Coq Require Import List String.
-Require Import Model.Values Model.Types Model.Conv Model.Render Lemmas.AgreeLemmas Lemmas.RenderLemmas.
+From Coq Require Import Sorting.Permutation.
+Require Import Model.Values Model.Types Model.Conv Model.Render Model.RenderSort Lemmas.AgreeLemmas Lemmas.RenderLemmas Lemmas.RenderSortLemmas.
 Import ListNotations.
 
 (* rendering the tree of ANY failed conversion (any well-formed type, any value) never raises *)
 Theorem C08_render_total : forall t v e,
-  wf_ty t -> ce t v = CTree e -> render_str e <> RRaises.
-Proof. exact render_total. Qed.
+  wf_ty t -> ce t v = CTree e -> render_message e <> RRaises.
+Proof. exact render_message_total. Qed.
 Print Assumptions C08_render_total.
 
 (* every tree the diagnostic pass produces is well shaped: no duplicate-key leaf directly
@@ -25,12 +30,34 @@ Print Assumptions C08_produced_trees_well_shaped.
    the expectation of every leaf, every missing / unexpected / duplicated field, the
    extra info line and the name of a failed condition: each is a token of the text *)
 Theorem C08_message_mentions : forall t v e toks,
-  wf_ty t -> ce t v = CTree e -> render EmptyString false None e = RText toks -> incl (mentioned e) toks.
-Proof. exact message_mentions. Qed.
+  wf_ty t -> ce t v = CTree e -> render EmptyString false None (canon_tree e) = RText toks -> incl (mentioned e) toks.
+Proof. exact render_message_mentions. Qed.
 Print Assumptions C08_message_mentions.
 
+(* one and the same failure -- the same nodes, their sets of missing and unexpected names
+   enumerated in any other order -- gives one and the same text *)
+Theorem C08_message_independent_of_set_order : forall e e', set_equiv e e' -> render_message e = render_message e'.
+Proof. exact message_independent_of_set_order. Qed.
+Print Assumptions C08_message_independent_of_set_order.
+
+Example C08_two_enumerations_of_one_failure :
+  let a := EProduct "struct S" [] (VDict []) ["beta"; "gamma"; "alpha"] [VStr "zeta"; VStr "eta"] in
+  let b := EProduct "struct S" [] (VDict []) ["gamma"; "alpha"; "beta"] [VStr "eta"; VStr "zeta"] in
+  set_equiv a b /\ a <> b /\
+  render_message a = RText ["Expected struct S" ++ nl ++ "  Missing required field 'alpha'" ++ nl ++ "  Missing required field 'beta'" ++ nl
+                            ++ "  Missing required field 'gamma'" ++ nl ++ "  Unexpected field 'eta'" ++ nl ++ "  Unexpected field 'zeta'"]%string.
+Proof.
+  simpl. split; [|split; [discriminate|vm_compute; reflexivity]].
+  repeat split; auto.
+  - apply Permutation_sym. apply perm_trans with ["alpha"; "beta"; "gamma"]%string; [|apply perm_swap || idtac].
+    + apply perm_trans with ["alpha"; "gamma"; "beta"]%string; [apply perm_swap|apply perm_skip, perm_swap].
+    + apply perm_trans with ["beta"; "alpha"; "gamma"]%string; [apply perm_swap|apply perm_skip, perm_swap].
+  - apply perm_swap.
+  - intros x y [<-|[<-|[]]] [<-|[<-|[]]] H; try reflexivity; vm_compute in H; discriminate.
+Qed.
+
 Example C08_fused_chain :
-  render_str (EProduct "struct Out" [(KVal (VStr "a"), EProduct "struct Mid" [(KVal (VStr "b"),
+  render_message (EProduct "struct Out" [(KVal (VStr "a"), EProduct "struct Mid" [(KVal (VStr "b"),
       EProduct "struct In" [] (VDict []) ["z"] [])] (VDict []) [] [])] (VDict []) [] [])
   = RText ["Expected struct Out" ++ nl ++ "  Missing required field 'a.b.z'"]%string.
 Proof. vm_compute. reflexivity. Qed.
